@@ -4,6 +4,8 @@ P="$(realpath "$1")"; ID="$2"; TIER="${3:-quick}"
 git -C /repo apply "$P" || { echo "patch does not apply"; exit 3; }
 /verif/check "$ID" --tier "$TIER" > /tmp/selftest.out 2>/tmp/selftest.err; RC=$?
 git -C /repo checkout -- . 
+# rebuild, so that no mutant binary is left behind
+(cd /verif/harness && CARGO_NET_OFFLINE=true cargo build --offline >/dev/null 2>&1)
 grep -E "^(VIOLATION|KNOWN-FINDING|MACHINERY|C[0-9]+ )" /tmp/selftest.out | cut -c1-200 | head -8
 grep -E "^--- " /tmp/selftest.err | awk '{print $2, $3}' | sort | uniq -c | sort -rn | head -5
 grep -E "^MACHINERY" /tmp/selftest.err | cut -c1-300 | head -3
